@@ -76,7 +76,9 @@ function project(src) {
       case 'SpreadElement': feats.add(parent && parent.type === 'ObjectExpression' ? 'objspread' : 'spread'); break;
       case 'ObjectPattern': case 'ArrayPattern': feats.add('destructuring'); break;
       case 'Property':
-        if (n.shorthand) feats.add('shorthandprop');
+        // `{a}` inside a binding/assignment pattern is the basic form of ES2015 destructuring (SingleNameBinding), not a
+        // feature of its own: only object LITERAL shorthand counts as `shorthandprop`
+        if (n.shorthand && !(parent && parent.type === 'ObjectPattern')) feats.add('shorthandprop');
         if (n.method) feats.add('method');
         if (n.computed) feats.add('computedkey');
         break;
